@@ -75,16 +75,44 @@ fn render_part(inst: &Value, pidx: usize) -> Vec<u8> {
         push_str(&mut d, "");
     }
     for c in cl {
-        push_str(&mut d, &format!("c{:03}", c));
-        push_str(&mut d, "clan");
-        push_int(&mut d, -1);
-        push_int(&mut d, c * 3);
-        push_int(&mut d, 1);
+        let (name, clan, country, score, flags) = client_fields(c);
+        push_str(&mut d, name);
+        push_str(&mut d, clan);
+        push_int(&mut d, country);
+        push_int(&mut d, score);
+        push_int(&mut d, 1 - flags); // is_player; the library turns "not a player" into flag 1
         if ex {
             push_str(&mut d, "");
         }
     }
     d
+}
+
+const NAMES: [&str; 2] = ["(connecting)", "nameless tee"];
+const CLANS: [&str; 2] = ["", "clan"];
+
+/// SrvInfo!KeyOf: the fields of client id c are bits of c - 1 (duplicates in every field)
+fn client_fields(c: i64) -> (&'static str, &'static str, i64, i64, i64) {
+    let k = c - 1;
+    (
+        NAMES[(k & 1) as usize],
+        CLANS[(k >> 1 & 1) as usize],
+        (k >> 2 & 1) - 1,
+        (k >> 3 & 1) + 2 * (k >> 5 & 1),
+        k >> 4 & 1,
+    )
+}
+
+/// the client id a returned record stands for (-1: no client of the model has these fields)
+fn client_id_of(name: &str, clan: &str, country: i64, score: i64, flags: i64) -> i64 {
+    let b0 = NAMES.iter().position(|n| *n == name);
+    let b1 = CLANS.iter().position(|n| *n == clan);
+    match (b0, b1) {
+        (Some(b0), Some(b1)) if (-1..=0).contains(&country) && (0..=3).contains(&score) && (0..=1).contains(&flags) => {
+            1 + b0 as i64 + 2 * b1 as i64 + 4 * (country + 1) + 8 * (score & 1) + 32 * (score >> 1) + 16 * flags
+        }
+        _ => -1,
+    }
 }
 
 fn parse_partial(d: &[u8]) -> Result<Option<p::PartialServerInfo>, String> {
@@ -96,23 +124,30 @@ fn parse_partial(d: &[u8]) -> Result<Option<p::PartialServerInfo>, String> {
     })
 }
 
-fn client_id(name: &str) -> i64 {
-    name.trim_start_matches('c').parse().unwrap_or(-1)
+fn ids_of(info: &p::ServerInfo) -> Vec<i64> {
+    info.clients
+        .iter()
+        .map(|c| client_id_of(&c.name, &c.clan, c.country as i64, c.score as i64, c.flags as i64))
+        .collect()
 }
 
-/// what the caller can observe: {complete, clients (sorted ids)}
+/// what the caller can observe: {complete, clients = the ids *in the order returned*}; take_info on
+/// a clone must hand out the same sequence (else the projection appends -2, which no spec value has)
 fn observe(x: &mut p::PartialServerInfo) -> Value {
-    match x.get_info() {
-        Some(info) => {
-            let mut c: Vec<i64> = info.clients.iter().map(|c| client_id(&c.name)).collect();
-            c.sort();
+    let got = x.get_info().map(|info| ids_of(info));
+    match got {
+        Some(mut c) => {
+            let taken = x.clone().take_info().map(|i| ids_of(&i));
+            if taken.as_ref() != Some(&c) {
+                c.push(-2);
+            }
             json!({"complete": true, "clients": c})
         }
         None => json!({"complete": false, "clients": []}),
     }
 }
 
-/// strict projection through the derived Debug image: (received mask bits 1-based, client ids);
+/// strict projection through the derived Debug image: (received mask bits 1-based, sorted client ids);
 /// None if the image cannot be read (then only the observable result is compared)
 fn strict(x: &p::PartialServerInfo) -> Option<(Vec<i64>, Vec<i64>)> {
     let s = format!("{:?}", x);
@@ -120,15 +155,23 @@ fn strict(x: &p::PartialServerInfo) -> Option<(Vec<i64>, Vec<i64>)> {
     let num: String = s[idx + 10..].chars().take_while(|c| c.is_ascii_digit()).collect();
     let mask: u64 = num.parse().ok()?;
     let bits: Vec<i64> = (0..64).filter(|b| mask >> b & 1 == 1).map(|b| b as i64 + 1).collect();
+    let end = s.rfind("], received")?;
+    let start = s[..end].rfind(": [")? + 3;
+    let inner = &s[start..end];
     let mut cls = Vec::new();
-    let b = s.as_bytes();
-    let mut i = 0;
-    while i + 5 <= b.len() {
-        if b[i] == b'"' && b[i + 1] == b'c' && b[i + 2].is_ascii_digit() && b[i + 3].is_ascii_digit() && b[i + 4].is_ascii_digit() {
-            cls.push(s[i + 2..i + 5].parse::<i64>().ok()?);
-            i += 5;
-        } else {
-            i += 1;
+    if !inner.is_empty() {
+        for e in inner.split(", ") {
+            // "name" "clan" country score flags
+            let mut q = e.split('"');
+            q.next()?;
+            let name = q.next()?;
+            q.next()?;
+            let clan = q.next()?;
+            let rest: Vec<&str> = q.next()?.split_whitespace().collect();
+            if rest.len() != 3 {
+                return None;
+            }
+            cls.push(client_id_of(name, clan, rest[0].parse().ok()?, rest[1].parse().ok()?, rest[2].parse().ok()?));
         }
     }
     cls.sort();
@@ -299,8 +342,8 @@ fn merge_replay() {
             if let (Some((bits, cls)), Some(tp)) = (applied.strict.as_ref(), tpool.get(ti)) {
                 strict_cmp += 1;
                 if *bits != ids(&tp["rcv"]) || *cls != ids(&tp["cls"]) {
+                    // internal state differs, observable result agrees: drift; exploration goes on
                     strict_diff += 1;
-                    matches_detailed = false;
                     fixedlike.entry(format!("strict:{}", shape(inst, &act))).or_insert((0, json!({"replay": replay, "bits": bits, "cls": cls, "want": tp}))).0 += 1;
                 }
             }
